@@ -1,11 +1,11 @@
-(* Obligation C10/sharp_gate_closed.  Statement as printed by Coq from Inferno.C10.KernelProofs; proof by reference.
+(* Obligation C10/sharp_gate_closed.  Statement as printed by Coq from Inferno.C10.KernelSharp; proof by reference.
    This file contains nothing else, so the statement cannot be weakened quietly. *)
 From Coq Require Import List ZArith Bool Arith Reals Lra Lia Permutation.
-From Inferno Require Import Base.Num Base.NumR Gen.Bounding C10.Updater C10.KernelProofs C10.AccProofs C10.OrderProofs C10.WorldProofs C10.UpdateProofs C10.InterleaveProofs.
+From Inferno Require Import Base.Num Base.NumR Gen.Bounding C10.Updater C10.KernelAlgebra C10.KernelSharp.
 Import ListNotations.
 Open Scope R_scope.
 Theorem sharp_gate_closed : forall (x : R) (u : T RN) (lim : R),
   (lim <= x -> bound_upper_sharp RN x u lim = 0) /\
   (x <= lim -> bound_lower_sharp RN x u lim = 0).
-Proof. exact (@Inferno.C10.KernelProofs.sharp_gate_closed). Qed.
+Proof. exact (@Inferno.C10.KernelSharp.sharp_gate_closed). Qed.
 Print Assumptions sharp_gate_closed.
